@@ -19,7 +19,11 @@ PROGRAMS = {
     "three-way join": "#pragma version 6\nstart:\ntxn Amount\nbnz a\ntxn Fee\nbnz b\nint 9\nb join\na:\nint 8\nb join\nb:\nint 7\njoin:\nint 4\npop\nint 1\nreturn\n",
     "match after a subroutine call (instruction edges stay in the caller)": "#pragma version 6\nstart:\ncallsub f\nint 4\npop\nint 1\nreturn\nf:\nint 4\npop\nretsub\n",
 }
-PATTERNS = {"int 4 / pop": "int 4\npop", "int 4": "int 4", "int 1 / return": "int 1\nreturn", "int 4 / pop / int 1": "int 4\npop\nint 1"}
+PATTERNS = {"int 4 / pop": "int 4\npop", "int 4": "int 4", "int 1 / return": "int 1\nreturn", "int 4 / pop / int 1": "int 4\npop\nint 1",
+            "int 4 / pop / int 1 / return": "int 4\npop\nint 1\nreturn",
+            # every line of the pattern is an instruction of the pattern: the version line and labels too
+            "#pragma version 6 / start:": "#pragma version 6\nstart:", "#pragma version 6": "#pragma version 6", "#pragma version 5": "#pragma version 5",
+            "start: / int 4": "start:\nint 4"}
 
 
 def reference(ctx, teal, label, pattern_lines):
